@@ -7,7 +7,7 @@ import cfgs as C
 import fields as F
 import hist as H
 import props.cfgprops as P
-from core import Result, stable
+from core import Result, stable, guard
 
 RULE = ("random root schemas with identifier keys (depth <= 3, no two paths colliding after '.'/'_' -> '-') : (naming) every path reported by "
         "get_all_fields is looked up on the real schema (same field object), compared with item_ref_path, membership, dotted and chained "
@@ -285,9 +285,74 @@ def value_at(state, path):
         cur = s["node"]
 
 
+def explicit_key_stream(ctx, res):
+    """fields and nested schemas constructed with an explicit key= that differs from the name they are registered under (and the
+    plain cases, for comparison): the registered name is the one every way of naming uses — enumeration, dotted lookup on the schema
+    and on a configuration, chained attribute access, the reference path, membership, dotted assignment, the parser's destinations and
+    a command-line override"""
+    import cincoconfig as cc
+    for keyed_field in (False, True):
+        for keyed_schema in (False, True):
+            for keyed_deep in (False, True):
+                s = cc.Schema()
+                s.name = cc.StringField(default="n")
+                s.server.port = cc.IntField(key="listen_port", default=80) if keyed_field else cc.IntField(default=80)
+                s.server.debug = cc.BoolField(default=False)
+                s.database = cc.Schema(key="db") if keyed_schema else cc.Schema()
+                s.database.host = cc.StringField(key="hostname", default="h") if keyed_field else cc.StringField(default="h")
+                s.database.pool = cc.Schema(key="p") if keyed_deep else cc.Schema()
+                s.database.pool.size = cc.IntField(default=5)
+                want = ["name", "server", "server.port", "server.debug", "database", "database.host", "database.pool", "database.pool.size"]
+                case = {"stream": "explicit-key", "field_with_key": keyed_field, "schema_with_key": keyed_schema, "deep_schema_with_key": keyed_deep}
+                res.case(stable(case), kind="explicit-key")
+                try:
+                    got = cc.get_all_fields(s)
+                    paths = [p for p, _, _ in got]
+                    if paths != want:
+                        res.violate("C16:enumeration", "get_all_fields does not enumerate exactly the declared paths in schema order", dict(case, got=paths, want=want))
+                        continue
+                    cfg = s()
+                    for p, owner, fld in got:
+                        where = dict(case, path=p)
+                        if s[p] is not fld:
+                            res.violate("C16:lookup", "an enumerated path does not resolve to that field on the schema", where)
+                        if cc.item_ref_path(fld) != p:
+                            res.violate("C16:ref-path", "an enumerated path differs from the field's reference path", dict(where, ref_path=cc.item_ref_path(fld)))
+                        chained = cfg
+                        for q in p.split("."):
+                            chained = getattr(chained, q)
+                        dotted = cfg[p]
+                        if not (chained is dotted or chained == dotted):
+                            res.violate("C16:dotted-vs-chained", "dotted-path access and chained attribute access disagree", where)
+                        if (p in cfg) is not True:
+                            res.violate("C16:membership", "an enumerated path is not reported as contained in the configuration", where)
+                    for p, v in (("server.port", 8080), ("database.host", "other"), ("database.pool.size", 9)):
+                        cfg[p] = v
+                        chained = cfg
+                        for q in p.split("."):
+                            chained = getattr(chained, q)
+                        if chained != v or cfg.to_tree() != {"name": "n", "server": {"port": 8080, "debug": False},
+                                                             "database": dict({"host": cfg.database.host}, pool={"size": cfg.database.pool.size})}:
+                            res.violate("C16:dotted-assignment", "a dotted-path assignment is not what chained attribute access (and the rendered tree) shows", dict(case, path=p, tree=cfg.to_tree()))
+                            break
+                    parser = cc.generate_argparse_parser(s)
+                    dests = sorted({a.dest for a in parser._actions if a.dest != "help"})
+                    if dests != sorted(["name", "server.port", "server.debug", "database.host", "database.pool.size"]):
+                        res.violate("C16:parser", "the generated parser does not offer exactly one option per scalar field (two switches per boolean) with dest = path", dict(case, got=dests))
+                        continue
+                    ns = parser.parse_args(["--server-port", "9090", "--database-pool-size", "2"])
+                    fresh = s()
+                    cc.cmdline_args_override(fresh, ns)
+                    if (fresh.server.port, fresh.database.pool.size, fresh.name, fresh.database.host) != (9090, 2, "n", "h"):
+                        res.violate("C16:override", "a command-line override did not set exactly the supplied options", dict(case, tree=fresh.to_tree()))
+                except Exception as e:  # noqa
+                    res.violate("C16:dotted-vs-chained", "naming a field raised %s" % type(e).__name__, dict(case, error=str(e)[:120]))
+
+
 def run(ctx, n_quick=200, n_thorough=6000):
     res = Result()
     naming_and_parser(ctx, res, ctx.n(n_quick, n_thorough))
+    guard(res, "C16", explicit_key_stream, ctx, res)
     P.run_stream(ctx, res, "C16", ctx.n(n_quick, n_thorough), oracle, gen_ops=gen_ops, ops_len=(3, 6), schema_gen=lambda rng, t, k: no_collision_schema(rng, t, k))
     return res
 
